@@ -18,7 +18,7 @@ from . import core, model_io as M, seams
 PROP = "C20"
 RUNS = {"quick": 4000, "thorough": 120000}
 RUN_TIMEOUT = 120.0
-ACCESS = ["path", "stringio", "wrapper", "realpath", "realhandle", "reuse_stringio", "reuse_wrapper"]
+ACCESS = ["path", "stringio", "wrapper", "realpath", "realhandle", "reuse_stringio", "reuse_wrapper", "shorttext"]
 ASSUMPTIONS = [
     "the oracle (model_io.refparse + convention model) is a second, independent reading of the loader documentation; "
     "content about which the documentation is silent is UNSPEC and never judged",
@@ -40,11 +40,34 @@ _INT = re.compile(r"(?<![\w.])\d+(?![\w.])")
 # --------------------------------------------------------------------------------------
 # plan generation
 # --------------------------------------------------------------------------------------
+def _gen_huge(rng, fmt):
+    """> 1 MiB of well-formed content (size caps, chunked readers and buffer boundaries only show here)."""
+    n = rng.randrange(45000, 70000)
+    if fmt == "patterns":
+        return [[[(i * 0.25 + o, float(40 + (i * 7 + o) % 50)) for i in range(n // 12)] for o in range(3)] for _ in range(4)]
+    if fmt in ("events", "labeled_events"):
+        return [((i * 0.37,) if fmt == "events" else (i * 0.37, "label %d" % i)) for i in range(n)]
+    if fmt in ("intervals", "labeled_intervals", "valued_intervals"):
+        base = [(i * 0.5, i * 0.5 + 0.5) for i in range(n)]
+        return [b if fmt == "intervals" else (b + (("seg %d" % i),) if fmt == "labeled_intervals" else b + (440.0 + i % 100,))
+                for i, b in enumerate(base)]
+    if fmt == "time_series":
+        return [(i * 0.01, 100.0 + i % 300) for i in range(n)]
+    if fmt == "ragged":
+        return [(i * 0.01, [100.0 + (i % 50), 200.0 + (i % 70)][: i % 3]) for i in range(n)]
+    return None
+
+
 def _gen_file(rng, cfg, fmt=None):
     fmt = fmt or rng.choice(M.FORMATS)
     style = M.gen_style(rng, fmt)
     flavor = "wild" if rng.random() < cfg["wild_p"] else "valid"
     rows = M.gen_rows(rng, fmt, flavor=flavor)
+    if cfg.get("huge") and not cfg.get("_huge_done"):
+        big = _gen_huge(rng, fmt)
+        if big is not None:
+            rows, flavor = big, "valid"
+            cfg["_huge_done"] = True
     clean_text = M.render(rng, fmt, rows, style)
     text, faults = clean_text, []
     if cfg["fault_p"] and rng.random() < cfg["fault_p"]:
@@ -76,6 +99,7 @@ def gen_plan(rng, tier, i):
         "wild_p": rng.choice([0.0, 0.15, 0.4]),
         "dev": {"short": rng.random() < 0.5, "eintr": rng.random() < 0.35, "eio": rng.random() < 0.25},
         "real": rng.random() < 0.12,
+        "huge": i % 400 == 7,
     }
     files, ops = {}, []
     nfiles = rng.randrange(4, 13)
@@ -196,6 +220,11 @@ def _load_once(mio, fs, spec, name, access, tmpdir, stats):
         elif access == "reuse_wrapper" and not fs.dev.get(simpath):
             h.seek(0)
             extra["second"] = _call(fn, h, **kw)
+    elif access == "shorttext":
+        # universal-newline translation is the text layer's job; this stream hands out already-translated text
+        h = seams.SimText(text.replace("\r\n", "\n"), chunks=spec.get("dev", {}).get("chunks") or [5, 11, 3], fired=fs.fired)
+        fname = str(h)
+        out = _call(fn, h, **kw)
     elif access == "realpath":
         fname = os.path.join(tmpdir, name)
         out = _call(fn, fname, **kw)
